@@ -404,3 +404,82 @@ def sweep(prop, A, jobs=16):
             if not ok:
                 out["missed"].append(f"variant `{name}` should be reported by {expect}; reported: {found or 'nothing'}")
     return out
+
+
+# ----------------------------------------------------------------------------------------
+# replay of the confirmed seeded changes (/verif/seeded/*/patch.diff), applied in memory
+# ----------------------------------------------------------------------------------------
+def apply_unified_diff(sources, diff_text):
+    """apply a `git diff` to the {file name: text} mapping (exact context, small offset
+    search); returns the new mapping or None when a hunk does not fit"""
+    out = dict(sources)
+    cur = None
+    hunks = {}
+    for line in diff_text.splitlines():
+        if line.startswith("+++ "):
+            path = line[4:].strip()
+            cur = path.split("/")[-1] if path != "/dev/null" else None
+            hunks.setdefault(cur, [])
+        elif line.startswith("@@") and cur is not None:
+            m = re.match(r"@@ -(\d+)(?:,(\d+))? \+(\d+)(?:,(\d+))? @@", line)
+            hunks[cur].append({"old_start": int(m.group(1)), "lines": []})
+        elif cur is not None and hunks.get(cur) and (line[:1] in (" ", "+", "-") or line == ""):
+            if line.startswith("---") or line.startswith("+++"):
+                continue
+            hunks[cur][-1]["lines"].append(line if line else " ")
+    for fn, hs in hunks.items():
+        if fn not in out or not hs:
+            continue
+        src = out[fn].split("\n")
+        shift = 0
+        for h in hs:
+            old = [l[1:] for l in h["lines"] if l[:1] in (" ", "-")]
+            new = [l[1:] for l in h["lines"] if l[:1] in (" ", "+")]
+            base = h["old_start"] - 1 + shift
+            pos = None
+            for off in sorted(range(-60, 61), key=abs):
+                p = base + off
+                if 0 <= p and src[p:p + len(old)] == old:
+                    pos = p
+                    break
+            if pos is None:
+                return None
+            src[pos:pos + len(old)] = new
+            shift += len(new) - len(old)
+        out[fn] = "\n".join(src)
+    return out
+
+
+def replay_seeded(prop, A, jobs=16):
+    import glob
+    import json
+    import os
+    base = read_sources(A.p.root)
+    root = os.path.join(os.path.dirname(os.path.dirname(os.path.abspath(__file__))), "seeded")
+    todo = []
+    names = []
+    for d in sorted(glob.glob(os.path.join(root, "*"))):
+        mp = os.path.join(d, "meta.json")
+        pp = os.path.join(d, "patch.diff")
+        if not (os.path.exists(mp) and os.path.exists(pp)):
+            continue
+        meta = json.load(open(mp))
+        if prop not in (meta.get("checks_reporting") or []):
+            continue
+        src = apply_unified_diff(base, open(pp).read())
+        if src is None:
+            names.append((meta["seed_id"], "does not apply to the current source"))
+            continue
+        todo.append((prop, "any", meta["seed_id"], len(todo), src))
+    res = []
+    if todo:
+        import multiprocessing as mp_
+        with mp_.get_context("fork").Pool(min(jobs, len(todo))) as pool:
+            res = pool.map(_run_one, todo)
+    out = {"replayed": len(todo), "reported": 0, "not_applicable": names, "missed": []}
+    for (p, e, sid, i, src), (idx, found, problems, floors, err) in zip(todo, res):
+        if found:
+            out["reported"] += 1
+        else:
+            out["missed"].append(f"seeded change {sid} is no longer reported by {prop} (reported: nothing; {err or problems or floors or ''})")
+    return out
